@@ -21,7 +21,7 @@ from ..workload import build_estimator, gen_dataset
 
 PROPERTY = "C06"
 LEVEL = "exploration"
-TIERS = {"quick": {"runs": 4000, "wall": 300}, "thorough": {"runs": 6000, "wall": 1800, "chunk": 8}}
+TIERS = {"quick": {"runs": 4000, "wall": 300}, "thorough": {"runs": 1500, "wall": 1800, "chunk": 4}}
 RTOL = 1e-9
 
 RULE = (
@@ -456,7 +456,7 @@ class History:
         if via_filter and res is not None:
             self.check_filter(ds, res, model, out, desc)
         self.compare(ds, desc)
-        if self.thorough and not poisoned and self.tape.coin(0.5, "fit.enumerate"):
+        if self.thorough and not poisoned and self.tape.coin(0.35, "fit.enumerate"):
             self.enumerate_interrupts(ds, j)
 
     def interrupted(self, call, k, desc):
@@ -483,8 +483,10 @@ class History:
         other = self.pool[(self.pool.index(ds) + 1) % len(self.pool)]
         with CallPoints() as cp:
             obj.fit(*self.args(other))
-        n = min(cp.count, 400)
-        for k in range(n):
+        stride = max(1, -(-cp.count // 150))  # every call point up to 150 per fit, else an even stride
+        positions = list(range(0, cp.count, stride))
+        n = len(positions)
+        for k in positions:
             where = f"fit(D other) interrupted@{k} then fit(D{j})"
             self.interrupted(lambda: obj.fit(*self.args(other)), k, where)
             self.must(where, lambda: obj.fit(*self.args(ds)))
